@@ -31,11 +31,15 @@ from pathlib import Path
 #
 # expr  : ("c", int) | ("v", name) | ("g", name) | ("attr", var, attr) | ("idx", var, int)
 #         | ("bin", op, e, e) | ("call", fname, [e...]) | ("len", var)
+#         | ("idx2", nestvar, int, int)           nested element  grid[i][j]
+#         (("idx", nestvar, int) also denotes the inner LIST when passed as argument for a parameter r)
 # cond  : ("cmp", op, e, e) | ("andor", "and"|"or", cond, cond)
 # stmt  : ("assign", name, e) | ("gassign", name, e) | ("setattr", var, attr, e)
 #         | ("setidx", var, int, e) | ("append", var, e) | ("newlist", name, [e...])
 #         | ("alias", name, var) | ("if", cond, [stmt], [stmt]) | ("while", ivar, bound_e, [stmt])
 #         | ("return", e) | ("callstmt", fname, [e...]) | ("pass",)
+#         | ("newnest", name, e, listvar|None)    name = [[e], listvar]   (second inner list is an ALIAS)
+#         | ("setidx2", nestvar, int, int, e)     grid[i][j] = e
 # func  : {"name", "params": [...], "globals": [...], "body": [stmt]}
 
 BINOPS = ["+", "-", "*"]
@@ -62,6 +66,8 @@ class Gen:
             choices += ["attr", "attr"]
         if "lists" in self.feat and lists:
             choices += ["idx", "idx", "len"]
+        if "lists" in self.feat and env["nests"]:
+            choices += ["idx2", "idx2", "idx2"]
         if "calls" in self.feat and helpers and depth < 2:
             choices += ["call"]
         k = r.choice(choices)
@@ -80,10 +86,14 @@ class Gen:
             return ("idx", name, r.randrange(0, env["listlen"][name]))
         if k == "len":
             return ("len", r.choice(lists))
+        if k == "idx2":
+            name = r.choice(sorted(env["nests"]))
+            i = r.randrange(0, 2)
+            return ("idx2", name, i, r.randrange(0, env["nests"][name][i]))
         if k == "bin":
             return ("bin", r.choice(BINOPS), self.expr(env, depth + 1, helpers), self.expr(env, depth + 1, helpers))
         h = r.choice(helpers)
-        if "o" in h["params"] and not objs:
+        if ("o" in h["params"] and not objs) or ("r" in h["params"] and not (lists or env["nests"])):
             return ("c", r.randrange(0, 9))
         return ("call", h["name"], self.args_for(h, env, depth + 1))
 
@@ -92,6 +102,12 @@ class Gen:
         for p in h["params"]:
             if p == "o":
                 args.append(("v", self.rng.choice(env["objs"])) if env["objs"] else None)
+            elif p == "r":
+                # a list: a list variable, or the inner list of a nested list reached by a subscript
+                if env["nests"] and (not env["lists"] or self.rng.random() < 0.6):
+                    args.append(("idx", self.rng.choice(sorted(env["nests"])), self.rng.randrange(0, 2)))
+                else:
+                    args.append(("v", self.rng.choice(env["lists"])))
             else:
                 args.append(self.expr(env, depth + 1, ()))
         return args
@@ -124,7 +140,9 @@ class Gen:
         if "lists" in self.feat:
             choices += ["newlist"]
             if env["lists"]:
-                choices += ["setidx", "append"]
+                choices += ["setidx", "append", "newnest", "newnest"]
+            if env["nests"]:
+                choices += ["setidx2", "setidx", "setidx"] if env["lists"] else ["setidx2"]
         if "branch" in self.feat and depth < 2:
             choices += ["if", "if", "if"]
         if "loops" in self.feat and depth < 1:
@@ -156,6 +174,16 @@ class Gen:
                 env["lists"].append(name)
             env["listlen"][name] = n
             return st
+        if k == "newnest":
+            name = r.choice(["n", "t"])
+            inner = r.choice(env["lists"])
+            st = ("newnest", name, self.expr(env, 1, ()), inner)
+            env["nests"][name] = [1, env["listlen"][inner]]
+            return st
+        if k == "setidx2":
+            name = r.choice(sorted(env["nests"]))
+            i = r.randrange(0, 2)
+            return ("setidx2", name, i, r.randrange(0, env["nests"][name][i]), self.expr(env, 0, helpers))
         if k == "setidx":
             name = r.choice(env["lists"])
             return ("setidx", name, r.randrange(0, env["listlen"][name]), self.expr(env, 0, helpers))
@@ -163,7 +191,7 @@ class Gen:
             return ("append", r.choice(env["lists"]), self.expr(env, 1, helpers))
         if k == "callstmt":
             h = r.choice(helpers)
-            if "o" in h["params"] and not env["objs"]:
+            if ("o" in h["params"] and not env["objs"]) or ("r" in h["params"] and not (env["lists"] or env["nests"])):
                 return ("pass",)
             return ("callstmt", h["name"], self.args_for(h, env, 1))
         if k == "while":
@@ -189,7 +217,8 @@ class Gen:
     @staticmethod
     def fork(env):
         return {"ints": list(env["ints"]), "objs": list(env["objs"]), "lists": list(env["lists"]),
-                "listlen": dict(env["listlen"]), "gdecl": env["gdecl"]}
+                "listlen": dict(env["listlen"]), "gdecl": env["gdecl"],
+                "nests": {k: list(v) for k, v in env["nests"].items()}}
 
     @staticmethod
     def join(env, e1, e2):
@@ -197,18 +226,42 @@ class Gen:
         for key in ("ints", "objs", "lists"):
             env[key] = [x for x in e1[key] if x in e2[key]]
         env["listlen"] = {k: min(e1["listlen"][k], e2["listlen"][k]) for k in env["lists"]}
+        env["nests"] = {k: [min(a, b) for a, b in zip(e1["nests"][k], e2["nests"][k])]
+                        for k in e1["nests"] if k in e2["nests"]}
 
     def func(self, name, params, helpers, n_stmts):
         r = self.rng
         gdecl = [g for g in GLOBALS if "globals" in self.feat and r.random() < 0.4]
-        env = {"ints": [p for p in params if p != "o"], "objs": ["o"] if "o" in params else [],
-               "lists": [], "listlen": {}, "gdecl": gdecl}
-        body = self.block(env, n_stmts, 0, helpers, True)
-        body.append(("return", self.expr(env, 0, helpers)))
+        env = {"ints": [p for p in params if p not in ("o", "r")], "objs": ["o"] if "o" in params else [],
+               "lists": ["r"] if "r" in params else [], "listlen": {"r": 1} if "r" in params else {},
+               "gdecl": gdecl, "nests": {}}
+        body0 = []
+        if "r" in params:
+            # the callee stores into the list it was handed (an alias of the caller's container)
+            body0.append(("setidx", "r", 0, self.expr(env, 0, ())))
+        if "nested" in self.feat and "lists" in self.feat:
+            # make the nested / aliased shapes frequent: an inner list, an outer list that holds it, and a
+            # result that is read back through the subscript chain
+            n0 = r.randrange(1, 3)
+            body0.append(("newlist", "l", [self.expr(env, 1, ()) for _ in range(n0)]))
+            env["lists"].append("l")
+            env["listlen"]["l"] = n0
+            body0.append(("newnest", "n", self.expr(env, 1, ()), "l"))
+            env["nests"]["n"] = [1, n0]
+        body = body0 + self.block(env, n_stmts, 0, helpers, True)
+        if env["nests"] and r.random() < 0.6:
+            nname = r.choice(sorted(env["nests"]))
+            i = r.randrange(0, 2)
+            ret = ("idx2", nname, i, r.randrange(0, env["nests"][nname][i]))
+            if r.random() < 0.5:
+                ret = ("bin", r.choice(BINOPS), ret, self.expr(env, 1, helpers))
+            body.append(("return", ret))
+        else:
+            body.append(("return", self.expr(env, 0, helpers)))
         return {"name": name, "params": params, "globals": gdecl, "body": body}
 
 
-ALL_FEATURES = ["branch", "globals", "attrs", "lists", "calls", "early", "alias", "andor"]
+ALL_FEATURES = ["branch", "globals", "attrs", "lists", "calls", "early", "alias", "andor", "nested"]
 
 
 def gen_case(rng, features=None, size=None):
@@ -221,6 +274,8 @@ def gen_case(rng, features=None, size=None):
     if "calls" in features:
         for k in range(rng.randrange(1, 3)):
             params = ["x", "y"] + (["o"] if "attrs" in features and rng.random() < 0.5 else [])
+            if "lists" in features and rng.random() < 0.5:
+                params.append("r")
             helpers.append(g.func(f"h{k}", params, tuple(helpers[:k]) if rng.random() < 0.3 else (), rng.randrange(1, 4)))
     params = ["x", "y"] + (["o"] if "attrs" in features else [])
     f = g.func("f", params, tuple(helpers), size)
@@ -249,6 +304,8 @@ def r_expr(e):
         return f"{e[1]}[{e[2]}]"
     if k == "len":
         return f"len({e[1]})"
+    if k == "idx2":
+        return f"{e[1]}[{e[2]}][{e[3]}]"
     if k == "bin":
         return f"({r_expr(e[2])} {e[1]} {r_expr(e[3])})"
     if k == "call":
@@ -290,6 +347,10 @@ class Renderer:
                 self.emit(f"{pad}{s[1]} = [{', '.join(r_expr(a) for a in s[2])}]", s)
             elif k == "alias":
                 self.emit(f"{pad}{s[1]} = {s[2]}", s)
+            elif k == "newnest":
+                self.emit(f"{pad}{s[1]} = [[{r_expr(s[2])}], {s[3]}]", s)
+            elif k == "setidx2":
+                self.emit(f"{pad}{s[1]}[{s[2]}][{s[3]}] = {r_expr(s[4])}", s)
             elif k == "callstmt":
                 self.emit(f"{pad}{s[1]}({', '.join(r_expr(a) for a in s[2])})", s)
             elif k == "return":
@@ -403,6 +464,11 @@ class Shadow:
             l = env[e[1]]
             el = l.val[e[2]]
             return TV(el.val, el.dep | self.base(l))
+        if k == "idx2":
+            outer = env[e[1]]
+            inner = outer.val[e[2]]
+            el = inner.val[e[3]]
+            return TV(el.val, el.dep | self.base(inner) | self.base(outer))
         if k == "len":
             l = env[e[1]]
             # the length depends on the creation and on every append that happened
@@ -478,6 +544,22 @@ class Shadow:
                 l = env[s[1]]
                 old = l.val[s[2]]
                 l.val[s[2]] = TV(v.val, old.dep if self.nosetidx else v.dep | here | self.base(l))
+            elif k == "newnest":
+                v = self.ev(s[2], env, ctx)
+                fresh = [TV(v.val, v.dep | here)]
+                alias = env[s[3]]
+                outer = [TV(fresh, frozenset(here)), TV(alias.val, alias.dep | here)]
+                for lst in (fresh, outer):
+                    self.lenDeps[id(lst)] = frozenset()
+                    self.keep.append(lst)
+                env[s[1]] = TV(outer, frozenset(here))
+            elif k == "setidx2":
+                v = self.ev(s[4], env, ctx)
+                outer = env[s[1]]
+                inner = outer.val[s[2]]
+                old = inner.val[s[3]]
+                inner.val[s[3]] = TV(v.val, old.dep if self.nosetidx
+                                     else v.dep | here | self.base(inner) | self.base(outer))
             elif k == "append":
                 v = self.ev(s[2], env, ctx)
                 l = env[s[1]]
